@@ -57,6 +57,6 @@ def write(pid, ev):
         pass
     tmp = path + '.tmp%d' % os.getpid()
     with open(tmp, 'w') as f:
-        json.dump(ev, f, indent=1, sort_keys=True, default=repr, ensure_ascii=False)
+        json.dump(ev, f, indent=1, sort_keys=True, default=repr, ensure_ascii=True)
     os.replace(tmp, path)
     return path
